@@ -76,6 +76,8 @@ Inductive case :=
         (init_ans : list (name * option (N * bytes))) (now0 : Z) (probe : list name)
         (cons_ok : bool) (cons_reqs : list name) (cons_wok : bool) (cobs : sobs)
         (steps : list (ev bytes * bool * sobs))
+| CConc (h : case) (now : Z) (evs : list (ev bytes)) (writes : list json) (rs : option restart) (fc : option fcobs)
+        (served1 : list (name * option bytes))   (* h: the sequential prefix (a CHist); then the concurrent block *)
 | CTrace (expect_ok : bool) (t : list fop)               (* one FileCache.Write under strace; expect_ok = it returned nil *)
 | CInject (panicked : bool) (content : N) (t : list fop). (* kill / error injection: file content 0 = old, 1 = new, 2 = neither *)
 
@@ -156,9 +158,10 @@ Definition fc_ok (c : cache_input) (o : option fcobs) : bool :=
 
 Fixpoint run_steps (names : list name) (age : Z) (probe : list name)
                    (s : store bytes) (c : cache_input) (clean alive : bool)
-                   (steps : list (ev bytes * bool * sobs)) : bool :=
+                   (steps : list (ev bytes * bool * sobs))
+                   (k : store bytes -> cache_input -> bool -> bool -> bool) : bool :=
   match steps with
-  | [] => true
+  | [] => k s c clean alive
   | (e, wok, SO r w rs fc) :: rest =>
     let '(s', fx, r', alive') := step_alive alive s e in
     let c' := next_cin c w wok in
@@ -167,14 +170,15 @@ Fixpoint run_steps (names : list name) (age : Z) (probe : list name)
     res_eqb r r' && written_ok fx w
     && restart_ok c' names age now probe (if clean' then Some s' else None) rs
     && fc_ok c' fc
-    && run_steps names age probe s' c' clean' alive' rest
+    && run_steps names age probe s' c' clean' alive' rest k
   end.
 
 (* rfail: Cache.Read failed at construction (the content `cin` exists but was not seen) *)
 Definition check_hist (rfail : bool) (cin : cache_input) (names : list name) (allow : bool) (age : Z)
                       (init_ans : list (name * option (N * bytes))) (now0 : Z) (probe : list name)
                       (cons_ok : bool) (cons_reqs : list name) (cons_wok : bool) (cobs : sobs)
-                      (steps : list (ev bytes * bool * sobs)) : bool :=
+                      (steps : list (ev bytes * bool * sobs))
+                      (k : store bytes -> cache_input -> bool -> bool -> bool) : bool :=
   let seen : cache_input := if rfail then None else cin in
   match new_store (decode_in seen) names allow age (assoc_ans init_ans) now0 with
   | None => negb cons_ok
@@ -188,15 +192,60 @@ Definition check_hist (rfail : bool) (cin : cache_input) (names : list name) (al
     cons_ok && list_beq neqb cons_reqs reqs && written_ok fx w
     && restart_ok c' names age now0 probe (if clean then Some s else None) rs
     && fc_ok c' fc
-    && run_steps names age probe s c' clean true steps
+    && run_steps names age probe s c' clean true steps k
   end.
+
+(* ---- a block of CONCURRENT calls (harness: the first call's Cache.Write is held on a gate while the
+   others are started, then released).  Every call's install + cache write is one locked step, so
+   whatever the interleaving, the documents must have reached the cache in the order of SOME
+   serialization of the calls, each being the document of the state right after its step. *)
+Fixpoint insert_all {A} (x : A) (l : list A) : list (list A) :=
+  match l with
+  | [] => [[x]]
+  | y :: r => (x :: l) :: map (cons y) (insert_all x r)
+  end.
+Fixpoint perms {A} (l : list A) : list (list A) :=
+  match l with
+  | [] => [[]]
+  | x :: r => flat_map (insert_all x) (perms r)
+  end.
+
+Fixpoint run_serial (s : store bytes) (alive : bool) (es : list (ev bytes)) : store bytes * bool * list (list (doc_entry bytes)) :=
+  match es with
+  | [] => (s, alive, [])
+  | e :: r =>
+    let '(s', fx, _, alive') := step_alive alive s e in
+    let '(sf, af, ds) := run_serial s' alive' r in
+    (sf, af, (match fx with [Flush d] => [d] | _ => [] end) ++ ds)
+  end.
+
+Definition bytes_served_eqb (a b : list (name * option bytes)) : bool :=
+  list_beq (fun x y => neqb (fst x) (fst y) && option_beq neqb (snd x) (snd y)) a b.
+
+Definition check_conc (names : list name) (age now : Z) (probe : list name)
+                      (evs : list (ev bytes)) (writes : list json) (rs : option restart) (fc : option fcobs)
+                      (served1 : list (name * option bytes))
+                      (s : store bytes) (c : cache_input) (clean alive : bool) : bool :=
+  existsb (fun es =>
+             let '(sf, _, ds) := run_serial s alive es in
+             let c' := match rev writes with t :: _ => Some (Some t) | [] => c end in
+             let clean' := match writes with [] => clean | _ => true end in
+             list_beq jmatch writes (map (encode_cache enc) ds)
+             && restart_ok c' names age now probe (if clean' then Some sf else None) rs
+             && fc_ok c' fc
+             && bytes_served_eqb served1 (map (fun n => (n, option_map snd (served (m sf) n))) probe))
+          (perms evs).
 
 End Check.
 
 Definition check (c : case) : bool :=
   match c with
   | CHist tbl rfail cin names allow age ia now0 probe cok creqs cwok cobs steps =>
+    check_hist tbl rfail cin names allow age ia now0 probe cok creqs cwok cobs steps (fun _ _ _ _ => true)
+  | CConc (CHist tbl rfail cin names allow age ia now0 probe cok creqs cwok cobs steps) now evs writes rs fc served1 =>
     check_hist tbl rfail cin names allow age ia now0 probe cok creqs cwok cobs steps
+               (check_conc tbl names age now probe evs writes rs fc served1)
+  | CConc _ _ _ _ _ _ _ => false
   | CTrace expect_ok t => if expect_ok then atomic_write_ok t else failed_write_ok t
   | CInject panicked content t => negb panicked && ((content =? 0)%N || (content =? 1)%N) && failed_write_ok t
   end.
